@@ -605,7 +605,8 @@ func TestVerif_C30(t *testing.T) {
 		r.Bounds["constructors"] = len(c30kinds)
 		r.Bounds["modes"] = c30nModes
 		// later runs use a reduced mode set in the quick tier
-		laterModes := vrun.Pick(r, []int{c30ok, c30errNoScript, c30fail1, c30fail2}, []int{c30ok, c30errPlain, c30errNoScript, c30fail1, c30fail2, c30loadErr})
+		reduced := []int{c30ok, c30errNoScript, c30fail1, c30fail2}
+		laterModes := vrun.Pick(r, reduced, []int{c30ok, c30errPlain, c30errNoScript, c30fail1, c30fail2, c30loadErr})
 		var rec func(c c30case, depth int)
 		stop := false
 		rec = func(c c30case, depth int) {
@@ -634,6 +635,9 @@ func TestVerif_C30(t *testing.T) {
 				return
 			}
 			modes := laterModes
+			if depth >= 2 {
+				modes = reduced
+			}
 			if depth == 0 {
 				modes = nil
 				for m := 0; m < c30nModes; m++ {
@@ -646,7 +650,7 @@ func TestVerif_C30(t *testing.T) {
 						continue // before the first run the cache state is given by Loaded
 					}
 					for fl := 0; fl < 2; fl++ {
-						if depth > 0 && fl == 1 && r.Quick() && m != c30ok {
+						if depth > 0 && fl == 1 && (r.Quick() || depth >= 2) && m != c30ok {
 							continue
 						}
 						cc := c
